@@ -130,7 +130,7 @@ def gen_channel_case(rng, vals):
     # the first word must not look like an option (clap's business)
     return {"params": params, "words": words, "positional": rng.random() < 0.7, "set_export": rng.random() < 0.4,
             "script": rng.random() < 0.3, "dotenv": rng.random() < 0.5, "outer": rng.random() < 0.5,
-            "unexport": rng.random() < 0.3}
+            "unexport": rng.random() < 0.3, "in_module": rng.choice([None, None, "sub::r", "sub r"])}
 
 
 def channel_files(c):
@@ -157,6 +157,9 @@ def channel_files(c):
             head += "='%s'" % p["default"]
     body = "  #!%s\n  [T]\n" % C.VSH if c["script"] else "  [T]\n"
     files = {"justfile": t + "\n" + head + ":\n" + body}
+    if c.get("in_module"):
+        # the recipe lives in a submodule and is named by its path: `$0` is still the recipe's name
+        files = {"justfile": 'set shell := ["%s", "-c"]\n' % C.VSH + ("set dotenv-load\n" if c["dotenv"] else "") + "mod sub\n", "sub.just": files["justfile"]}
     if c["dotenv"]:
         files[".env"] = "".join("%s=dotenv-%s\n" % (p["name"], p["name"]) for p in c["params"]) + "OTHER=dotenv-other\n"
     return files, c
@@ -171,7 +174,7 @@ def run_channel_case(c):
         env = dict(C.BASE_ENV)
         env.update({"HOME": d, "TMPDIR": d, "VSH_LOG": logp})
         # `--` keeps words that look like options away from clap
-        p = subprocess.run([C.JUST, "r"] + (["--"] if any(w.startswith("-") for w in c["words"]) else []) + c["words"], cwd=d, env=env,
+        p = subprocess.run([C.JUST] + (c.get("in_module") or "r").split(" ") + (["--"] if any(w.startswith("-") for w in c["words"]) else []) + c["words"], cwd=d, env=env,
                            stdin=subprocess.DEVNULL, stdout=subprocess.PIPE, stderr=subprocess.PIPE)
         entries = C.read_vsh_log(logp)
         e = entries[0] if entries else None
@@ -323,7 +326,7 @@ def run(report):
     report.coverage.update({
         "evaluations": len(vals) + stats["dash_model_compared"] + nchan,
         "distinct_nontrivial": len(distinct),
-        "rule": "all strings of length <=%d over a 27-symbol metacharacter alphabet (carriage return included) (exhaustive) + injection payloads + random longer strings, each delivered through quote(), exported $param, \"$1\"/\"$@\"/$0 under positional-arguments (linewise and shebang), variadic words, and a NAME=VALUE override (quote and export); real /bin/sh; plus random parameter lists (singular, default, +, *, exported or not) x random words x {positional-arguments, set export, shebang, a .env file and a module variable defining the same names, unexport}: argv and environment of the child vs the statement and vs Just.Channels; distinct = distinct values" % (2 if tier == "quick" else 3),
+        "rule": "all strings of length <=%d over a 27-symbol metacharacter alphabet (carriage return included) (exhaustive) + injection payloads + random longer strings, each delivered through quote(), exported $param, \"$1\"/\"$@\"/$0 under positional-arguments (linewise and shebang), variadic words, and a NAME=VALUE override (quote and export); real /bin/sh; plus random parameter lists (singular, default, +, *, exported or not) x random words x {root recipe, recipe of a submodule named `sub::r` or `sub r`} x {positional-arguments, set export, shebang, a .env file and a module variable defining the same names, unexport}: argv and environment of the child vs the statement and vs Just.Channels; distinct = distinct values" % (2 if tier == "quick" else 3),
         "samples": samples,
         "exhaustive": True,
         "traces_validated_against_impl": len(vals),
